@@ -531,6 +531,18 @@ def directed_c01():
 C01_HELPERS = gen.C01_HELPERS_TEXT
 
 
+def pkgvar_bodies():
+    """yield operands that are qualified identifiers of another package: constants, but also
+    exported variables that change between two evaluations (seed C07_r14)"""
+    Y = lambda e: ("yield", e)
+    B = []
+    B.append(("loop_yield_var", [("raw", "conf.Level = b"), ("for", ("decl", "i", "0"), "i < n", ("inc", "i"), [Y("conf.Level"), ("raw", "conf.Level += a + 1")]), Y("conf.Level + 1")]))
+    B.append(("loop_yield_field", [("raw", "conf.Box.V = a"), ("for", ("decl", "i", "0"), "i < n", ("inc", "i"), [Y("conf.Box.V"), ("raw", "conf.Box.V ^= b + i")]), Y("conf.Box.V")]))
+    B.append(("loop_yield_const", [("for", ("decl", "i", "0"), "i < n", ("inc", "i"), [Y("conf.Max"), ("eff", 1)]), Y("conf.Max + a")]))
+    B.append(("var_set_before_yield_in_if", [("raw", "conf.Level = a"), ("if", "g1", [("raw", "conf.Level = b")], None), ("if", "g2", [Y("conf.Level"), ("raw", "conf.Level++")], [Y("conf.Max")]), Y("conf.Level")]))
+    return B
+
+
 def build_c01_corpus(ctx, corp, n_exh, n_sampled, weights=None, max_nodes=12, sample_seed_off=0, transform=None):
     transform = transform or (lambda body, rng, ctr: body)
     rng = random.Random(ctx.seed * 7919 + sample_seed_off)
@@ -564,6 +576,10 @@ def build_c01_corpus(ctx, corp, n_exh, n_sampled, weights=None, max_nodes=12, sa
         helpers = C01_HELPERS if "H2(" in repr(body) else ""
         body = transform(body, rng, gen.Ctr())
         p = gen.Program("d_%s" % name, body, helpers=helpers, named_result=False, family="dir", tags={"directed:" + name})
+        corp.add(p)
+    for name, body in pkgvar_bodies():
+        body = transform(body, rng, gen.Ctr())
+        p = gen.Program("pv_%s" % name, body, helpers="// EXTRA-IMPORTS: verifws/conf\n", named_result=True, family="pkv", tags={"pkgvar:" + name})
         corp.add(p)
     return {"exhaustive_total": len(exh), "exhaustive_used": len(exh_sel), "sampled": n_sampled, "directed": len(directed_c01())}
 
@@ -1303,9 +1319,12 @@ def plan_C13(ctx):
         ps.append(gen.Program("n_closure_prefix_sums", [("raw", PRE), ("yield", "xs[1]"), ("yield", "xs[2] + xs[3]")], named_result=True, family="bys", tags={"bystander:closure-in-generator"}))
         ps.append(gen.Program("n_closure_array_pointer_fill", [("yield", "a"), ("raw", PA), ("yield", "arr[1]"), ("yield", "arr[2] + arr[3]")], named_result=True, family="bys", tags={"bystander:closure-in-generator"}))
         DIRS = "//go:noinline\nfunc pin@(x int) int { return x*3 + 1 }\n\n//go:embed gen_@.go\nvar hdr@ string\n\n// a free-floating remark that nothing depends on\n\n//go:nosplit\nfunc tiny@() int { return len(hdr@) & 1 }\n"
-        for name, imps in (("directives", "_embed"), ("blank_imports", "_embed _image/png _unicode/utf8")):
+        for name, imps in (("directives", "_embed"), ("blank_imports", "_embed _image/png _unicode/utf8"), ("documented_generator", "_embed")):
             pid = "dv_" + name
             p = gen.Program(pid, [("yield", "pin%s(a)" % pid), ("yield", "tiny%s() + b" % pid)], helpers=("// EXTRA-IMPORTS: %s\n" % imps) + DIRS.replace("@", pid), named_result=True, family="dirs", tags={"bystander:" + name})
+            if name == "documented_generator":
+                # the generator declaration carries a doc comment of its own (the rewriter appends its source dump there)
+                p.doc = "// G%s yields two values computed by the directive-carrying bystanders below.\n// It is documented like any exported function." % pid
             ps.append(p)
         # an earlier file of the same package with a function-literal generator (per-file rewriter state)
         lit = gen.Program("aa_lit", [("yield", "a"), ("yield", "b + 1")], named_result=False, family="dirs", tags={"bystander:lit-generator-first"})
